@@ -335,6 +335,19 @@ func c03PickConfig(rng *Rng, g *GenTree, fout string) wrConfig {
 		}
 	}
 	args := append([]string{"-F"}, extra...)
+	// files given on the command line (only these get the executable-bit check)
+	var fileArgs []string
+	for _, f := range g.Files {
+		if st, err := os.Stat(g.Path(f)); err == nil && st.Mode().IsRegular() && strings.HasPrefix(f, "cat/p") && (st.Mode()&0o111 != 0 || rng.Chance(10)) {
+			fileArgs = append(fileArgs, f)
+		}
+	}
+	if len(fileArgs) > 0 && rng.Chance(60) {
+		if rng.Bool() {
+			return wrConfig{Cwd: ".", Args: append(args, fileArgs...)}
+		}
+		return wrConfig{Cwd: ".", Args: append(append(args, fileArgs...), g.Pkgs...)}
+	}
 	switch rng.Intn(5) {
 	case 0, 1:
 		cfg = wrConfig{Cwd: ".", Args: append(args, "-r", ".")}
